@@ -118,6 +118,14 @@ class MasterTruth:
                 return data.get('affinity_limits') or {}
         return {}
 
+    def level_of(self, node):
+        """server / rack / pod / ... / cell, by the harness's reading."""
+        if isinstance(node, scheduler.Server):
+            return 'server'
+        if isinstance(node, scheduler.Cell):
+            return 'cell'
+        return str(node.name).split(':')[0]
+
     def affinity_of(self, aname):
         data = self.apps.get(aname)
         return data.get('affinity') if data else None
@@ -2475,6 +2483,12 @@ def make_config(prop, tier, rng):
     for p in range(npods):
         topology.append(['pod:p%d' % p, ['rack:p%dr%d' % (p, r)
                                          for r in range(rng.randint(1, 2))]])
+    if rng.random() < 0.3:
+        # bucket ids are free form: "<level>:<site>:<id>" is as good as
+        # "<level>:<id>"
+        topology = [[pod.replace(':', ':dc1:', 1),
+                     [r.replace(':', ':dc1:', 1) for r in racks]]
+                    for pod, racks in topology]
     cfg['topology'] = topology
     nparts = rng.choice([1, 2, 2])
     cfg['partitions'] = ['_default'] + ['part%d' % i for i in range(1, nparts)]
